@@ -11,6 +11,11 @@ EXTENDS Naturals, Sequences, FiniteSets
 Prefixes(seq) == {SubSeq(seq, 1, k) : k \in 1..Len(seq)}
 IsTrue(hits, seq) == \A p \in Prefixes(seq) : p \in hits
 
+(* Short spellings.  A node `A.B.C.D` may be written with leading names dropped and with middle names dropped, always keeping the last
+   one (`B.C.D`, `A.D`, `D`, ...).  A spelling that denotes exactly one node answers for that node; a spelling that two nodes share
+   denotes neither: asking it is refused -- it must not silently stand for one of them (hierarchy would break: `SN` false, `NVIDIA.SN` true). *)
+Variants(seq) == {SubSeq(seq, l + 1, Len(seq) - r) \o <<seq[Len(seq)]>> : l \in 0..(Len(seq) - 1), r \in 1..Len(seq)} \ {<<>>}
+Denotes(seqs, v) == {q \in seqs : v \in {w \in Variants(q) : Len(w) >= 1 /\ Len(w) <= Len(q)}}
 \* candidates: sequence of [v (vendor name), dots (Nat)] in registration order (a vendor may appear once per matching expression)
 MaxDots(cands) == IF cands = <<>> THEN 0 ELSE LET D == {cands[i].dots : i \in DOMAIN cands} IN CHOOSE d \in D : \A e \in D : e <= d
 Best(cands) == {cands[i].v : i \in {j \in DOMAIN cands : cands[j].dots = MaxDots(cands)}}
